@@ -2,7 +2,7 @@
 #   protocol spec: spec/algo/Pipeline.tla (stage tasks, input_buffer low/high tokens, parked ring + grow, token accounting, recycle)
 #   abstract spec: spec/algo/PipeAbs.tla ; filter-body begin/end events of real parallel_pipeline runs (all mode strings up to length 3,
 #   selected of length 4, token limits 1..3, 0..5 items, seed-derived stage delays) validated by TLC (TracePipe.tla).
-import os, json, vlib
+import os, re, json, vlib
 SD = os.path.join(vlib.SPEC, 'algo')
 
 
@@ -21,9 +21,56 @@ def describe(tr):
     return 'filter events of the real parallel_pipeline are rejected by PipeAbs (%s): %s' % (signature(tr), json.dumps([e for e in tr if not e['e'].startswith('#')])[:1500])
 
 
+def buffer_replay(res, thorough):
+    """every transition of PipeBuffer (the transcription of input_buffer: try_put_token / try_to_spawn_task_for_next_token / grow) applied to the real input_buffer"""
+    exe = vlib.build_harness('h_pipebuf', ['sched/h_pipebuf.cpp'])
+    os.makedirs(os.path.join(vlib.BUILD, 'graphs'), exist_ok=True); os.makedirs(os.path.join(vlib.BUILD, 'traces'), exist_ok=True)
+    total = 0; dsum = 0
+    for cfg in ['PipeBuffer_r6.cfg', 'PipeBuffer_n6.cfg', 'PipeBuffer_r9.cfg'] + (['PipeBuffer_r17.cfg'] if thorough else []):
+        tag = 'c07-' + cfg[:-4]; dot = os.path.join(vlib.BUILD, 'graphs', tag + '.dot')
+        r = vlib.tlc(SD, 'PipeBuffer', cfg, dump=dot, deadlock=False, timeout=3000, xmx='24g'); res.add_tlc(r, 'PipeBuffer:' + cfg); vlib.tlc_must_hold(r, cfg)
+        if r.violation:
+            raise vlib.HarnessFailure('PipeBuffer violates %s' % r.violation)
+        nodes, edges, init = vlib.parse_dot(dot, ['arr', 'size', 'low', 'high', 'lastOp', 'lastRes'], raw=True); os.unlink(dot)
+        proj = {}
+        for k, v in nodes.items():
+            f = v.split('\x1f'); cells = re.findall(r'(\d+) :> \[valid \|-> (TRUE|FALSE), tok \|-> (\d+)\]', f[0])
+            slots = ','.join(tok if val == 'TRUE' else '-1' for _, val, tok in sorted(cells, key=lambda c: int(c[0])))
+            op = re.findall(r'<<"?(\w+)"?, (\d+)>>', f[4])[0]
+            proj[k] = (f[1].strip(), f[2].strip(), f[3].strip(), slots, op[0], op[1], f[5].strip())
+        seen = set(); lines = []
+        for u, outs in edges.items():
+            for (v, lab, arg) in outs:
+                a = proj[u]; b = proj[v]
+                line = '%s|%s|%s|%s|%s|%s|%s|%s|%s|%s' % (a[0], a[1], a[2], a[3], b[4], b[5], b[6], b[0], b[1], b[3])
+                if line not in seen:
+                    seen.add(line); lines.append(line)
+        tfn = os.path.join(vlib.BUILD, 'graphs', tag + '-%d.trans' % os.getpid()); open(tfn, 'w').write('\n'.join(lines) + '\n')
+        tf = os.path.join(vlib.BUILD, 'traces', tag + '-%d.ndjson' % os.getpid())
+        p = vlib.sh([exe, tfn, tf], timeout=1500); os.unlink(tfn)
+        if p.returncode != 0:
+            raise vlib.HarnessFailure('h_pipebuf failed: %s' % (p.stdout + p.stderr)[-1500:])
+        for l in p.stderr.splitlines()[:3]:
+            if l.startswith('SPEC-DRIFT'):
+                print(l)
+        s = json.loads(p.stdout.strip().splitlines()[-1]); total += s['transitions']; dsum += s['drift']
+        evs = vlib.read_trace_file(tf)[0]; os.unlink(tf)
+        execs = [evs[i:i + 400] for i in range(0, len(evs), 400)]
+
+        def describe(tr):
+            i = vlib.first_unexplained(SD, 'TracePipeBuf', 'TracePipeBuf.cfg', tr, 'c07-pb', linear=True)
+            return ('one operation of the real pipeline token buffer loses, misplaces or duplicates a parked item, or hands out the wrong one: %s' % json.dumps(tr[i] if i is not None else tr[:2]))
+        vlib.validate_and_report(res, SD, 'TracePipeBuf', 'TracePipeBuf.cfg', execs, tag, describe, batch=40, sig_fn=lambda tr: 'pipebuffer:op')
+        vlib.log('%s: %d states, %d distinct transitions replayed on the real input_buffer, drift %d' % (tag, r.distinct, s['transitions'], s['drift']))
+    res.extra.update({'buffer_transitions_replayed': total, 'buffer_drift': dsum})
+    if dsum:
+        print('SPEC-DRIFT property=C07 input_buffer replay: %d transitions disagree with PipeBuffer.tla' % dsum)
+
+
 def run(res, tier, seed):
     exe = vlib.build_harness('h_pipe', ['sched/h_pipe.cpp'])
     thorough = tier != 'quick'
+    buffer_replay(res, thorough)
     for c in ['M1', 'M2', 'M5', 'M6'] + (['M3', 'M4'] if thorough else []):
         vlib.model_check(res, SD, 'MCPipeline', 'Pipeline_%s.cfg' % c, timeout=1500)
     os.makedirs(os.path.join(vlib.BUILD, 'traces'), exist_ok=True)
